@@ -13,7 +13,7 @@ def compose(msgtype, seq, sender, target, sending, body=(), possdup=False, orig=
     """body / extra_header: sequences of (tag, value).  header_first: fields placed before MsgSeqNum."""
     h = [(35, msgtype)] + list(header_first) + [(49, sender), (56, target), (34, seq)]
     if possdup:
-        h.append((43, "Y"))
+        h.append((43, "Y" if possdup is True else possdup))      # possdup="N": the flag is present but says no
     h.append((52, sending))
     if orig is not None:
         h.append((122, orig))
